@@ -436,7 +436,7 @@ PROPS["C07"] = {"props_file": "C07.v", "run": run_c07}
 
 # ---------------------------------------------------------------- C03
 def scale_case(c, k):
-    """the same backtest with initial capital and every CapitalFlow amount multiplied by k"""
+    """the same backtest with initial capital, every CapitalFlow / user adjustment amount and every blotter quantity multiplied by k"""
     import copy
     from gen_engine import hx
     d = copy.deepcopy(c)
@@ -460,6 +460,11 @@ def scale_case(c, k):
             for kid in t[3]:
                 walk(kid)
     walk(d["tree"])
+    # absolute quantities supplied as data (the blotter of ReplayTransactions) scale with the book as well
+    for _, a in d.get("adata", []):
+        if a[0] == "trans":
+            for row in a[1]:
+                row[2] = hx(float.fromhex(row[2]) * k)
     d["name"] = c["name"] + "x%d" % k
     return d
 
